@@ -149,10 +149,36 @@ def expected(d, fl):
 
 def with_numpy(d: dict) -> dict:
     import numpy as np
-    return {k: (np.array(v) if isinstance(v, list) else v) for k, v in d.items()}
+    out = {}
+    for k, v in d.items():
+        if k == "points" and isinstance(v, list):
+            out[k] = [np.array(x) if isinstance(x, list) else x for x in v]       # arrays as items of a Python list
+        elif k == "deep" and isinstance(v, dict):
+            out[k] = {kk: ([np.array(x) if isinstance(x, list) else x for x in vv] if isinstance(vv, list) else vv) for kk, vv in v.items()}
+        else:
+            out[k] = np.array(v) if isinstance(v, list) else v
+    return out
 
 
 _SHARED: dict = {}
+
+
+class _Str(str):
+    pass
+
+
+def type_variant(v):
+    import collections
+    import enum
+    if isinstance(v, dict):
+        return collections.OrderedDict((k, type_variant(x)) for k, x in v.items())
+    if isinstance(v, list):
+        return [type_variant(x) for x in v]
+    if isinstance(v, str):
+        return _Str(v)
+    if isinstance(v, int) and not isinstance(v, bool) and abs(v) < 2**31:
+        return enum.IntEnum("E", {"A": v}).A
+    return v
 
 
 def loose_twin(v):
@@ -219,6 +245,21 @@ def oracle_routes(ctx: Ctx, case: dict, d: dict, fl: str, suffix: str = "") -> N
             r2b = {k: v for k, v in r2b.items() if k != "FoamFile"}
         if not same(r2b, exp):
             ctx.violation("route DictWriter(mode w onto an existing, loosely equal file)+DictReader: read back differs from what was written", case, enc(r2b), enc(exp))
+    # the same data handed over in other argument types: OrderedDict / str subclass / IntEnum values, path as str and PurePath
+    if not case.get("np") and hash(repr(d)) % 4 == 0:
+        try:
+            with impl.scratch() as td:
+                reset_globals()
+                DictWriter.write(type_variant(copy.deepcopy(d)), str(td / ("v" + suffix)), mode="w")
+                rv = spec.strip_placeholders(impl.plain(DictReader.read(str(td / ("v" + suffix)))))
+                import pathlib
+                rv2 = spec.strip_placeholders(impl.plain(DictReader.read(pathlib.PurePosixPath(str(td / ("v" + suffix))))))
+        except Exception as e:  # noqa: BLE001
+            ctx.violation("file route with other argument types (OrderedDict, str subclass, IntEnum, str / PurePath paths) raises", case, repr(e), enc(exp)); return
+        if fl == "foam":
+            rv = {k: v for k, v in rv.items() if k != "FoamFile"}; rv2 = {k: v for k, v in rv2.items() if k != "FoamFile"}
+        if not same(rv, exp) or not same(rv2, exp):
+            ctx.violation("file route with other argument types (OrderedDict, str subclass, IntEnum, str / PurePath paths): read back differs", case, enc(rv), enc(exp))
     exp_f = exp
     if fl == "foam":
         r3 = {k: v for k, v in r3.items() if k != "FoamFile"}
@@ -324,6 +365,7 @@ def run(ctx: Ctx) -> None:
             w = rng.randint(1, 3)
             arr = [[rng.randint(0, 9) for _ in range(w)] for _ in range(rng.randint(1, 3))]
             cases.append({"kind": "dict", "np": True, "d": enc({"m": arr, "v": [1.5, 2.5], "w": "x"})})
+            cases.append({"kind": "dict", "np": True, "d": enc({"points": [[1, 2, 3], [4, 5, 6], 7], "deep": {"rows": [arr[0], [0.5, 1.5]], "n": 1}, "w": "x"})})
     except ImportError:
         pass
     if ctx.scale == 1.0:
